@@ -147,6 +147,14 @@ def run(ctx):
         ctx.floor("D4-HEX", fn, "Ok-returning paths", len(oks), 1)
         for i, p in enumerate(oks):
             v = unwrap_ok(p.end[1])
+            # the same encoding moved into a helper that did not exist when the rules were written: to_hex(&hasher.finalize())
+            hv = strip_refs(v)
+            hk = hv[1] if is_call(hv) and hv[1] in ctx.inline_set else (mir.norm_path(hv[1]) if is_call(hv) and mir.norm_path(hv[1]) in ctx.inline_set else None)
+            if hk is not None and len(call_args(hv)) == 1 and is_call(content(call_args(hv)[0]), "::finalize"):
+                okh, why = hex_helper(ctx, fx, hk, sp["hex_template"])
+                ctx.check(okh, "D4-HEX", fn, "ok-path-%d" % i, "Ok(%s(finalize())) where the helper appends {:02x} of every byte in order" % hk.split("::")[-1],
+                          "the result is %s(finalize()) but %s" % (hk, why), fn_span(body))
+                continue
             good = is_call(v, "::fold")
             detail = term_str(v)
             if good:
@@ -188,6 +196,45 @@ def run(ctx):
                       "expected exactly one update with the input string, found %s" % [term_str(u.args[1]) for u in ups], fn_span(body))
 
     patch_filter(ctx, fx, sp)
+
+
+def hex_helper(ctx, fx, hk, template):
+    """a helper fn(bytes) -> String that encodes its argument: one loop driven by a slice iterator over the parameter, one format site
+    with the hex template inside that loop whose argument is the loop element, the returned String starts empty and is only appended to"""
+    hb = ctx.body(hk)
+    hps = ctx.paths(hk)
+    if hb is None or not hps:
+        return False, "its body is not available"
+    tmpl = [fmt_template(s_) for s_ in fmt_sites_in(fx, hb)]
+    if tmpl != [template]:
+        return False, "it formats with %s, expected exactly [%r] (two lower-case hex digits per byte)" % (tmpl, template)
+    if len(hb.loops) != 1:
+        return False, "it has %d loops, expected one over the bytes" % len(hb.loops)
+    h = next(iter(hb.loops))
+    drv = [c for p in hps for c in p.conds() if c.term[0] == "discr" and is_call(strip_refs(c.term[1]), "::next") and strip_refs(c.term[1])[4] == h]
+    from lib import _iter_source
+    if not drv or "slice::Iter" not in strip_refs(drv[0].term[1])[1] or _iter_source(call_args(strip_refs(drv[0].term[1]))[0]) != ("param", 1):
+        return False, "its loop is not a forward iteration over the slice it is given"
+    wf = [e for p in hps for e in p.events if e.kind == "call" and fmt_site_for_call(fx, hb, e.bb) is not None and e.bb in hb.loops[h]]
+    args = [a for e in wf for (_, a) in fmt_call_args(e.term if hasattr(e, "term") else None) or []]
+    elem_ok = any(mentions(a, lambda s_: s_[0] == "downcast" and s_[2] == "Some" and is_call(strip_refs(s_[1]), "::next")) for e in wf for a in e.args) or \
+        any(mentions(e2.args[-1] if e2.args else None, lambda s_: s_[0] == "downcast" and s_[2] == "Some" and is_call(strip_refs(s_[1]), "::next"))
+            for p in hps for e2 in p.events if e2.kind == "call" and e2.bb in hb.loops[h] and ("Argument" in e2.path))
+    if not elem_ok:
+        return False, "the formatted value is not the byte the loop is looking at"
+    rets = ret_paths(hps)
+    locs = {p.end[1][1] for p in rets if isinstance(p.end[1], tuple) and p.end[1][0] in ("havoc", "mutated")}
+    if len(locs) != 1 or len(rets) != sum(1 for p in rets if isinstance(p.end[1], tuple) and p.end[1][0] in ("havoc", "mutated")):
+        return False, "it does not return the String it accumulates"
+    loc_ = next(iter(locs))
+    mu = mutators_of(hps, lambda t: isinstance(t, tuple) and t[0] == "loc" and t[1] == loc_)
+    bad = sorted(k for k in mu if k not in ("push_str", "write_fmt", "write_str", "push", "add_assign", "extend"))
+    if bad or not mu:
+        return False, "the accumulated String is also modified through %s" % (bad or "nothing")
+    init = [p.end[1][3] for p in rets if isinstance(p.end[1], tuple) and p.end[1][0] == "havoc" and len(p.end[1]) > 3]
+    if not all(is_call(strip_refs(x), "String::new", "String::with_capacity") for x in init if x is not None):
+        return False, "the accumulated String does not start empty"
+    return True, ""
 
 
 def check_hex_closure(ctx, fx, owner, ckey, template):
